@@ -202,6 +202,27 @@ func c11() []*Ob {
 					for _, call := range CallsIn(fn, Callee("unicode.IsUpper", "unicode.IsLower", "unicode.IsTitle")) {
 						c.Violation("pair:case:predicate-gates-mapping:"+FuncName(fn), call.Pos(), "%s asks %s before lower-casing: runes that ToLower changes but the predicate does not cover (title-case digraphs, roman numerals, circled capitals) stay as they are in the index while the query side lower-cases them", FuncName(fn), CallName(call))
 					}
+					// the predicate handed over as a function value (bytes.ContainsFunc(x, unicode.IsUpper), IndexFunc, ...) gates just the same
+					for _, ff := range WithClosures(fn) {
+						for _, b := range ff.Blocks {
+							for _, in := range b.Instrs {
+								if _, isCall := in.(ssa.CallInstruction); !isCall {
+									continue
+								}
+								for _, op := range in.Operands(nil) {
+									if op == nil || *op == nil {
+										continue
+									}
+									if f, isFn := (*op).(*ssa.Function); isFn && f.Pkg != nil && f.Pkg.Pkg.Path() == "unicode" && (f.Name() == "IsUpper" || f.Name() == "IsLower" || f.Name() == "IsTitle") {
+										if cl := in.(ssa.CallInstruction); cl.Common().Value == *op {
+											continue // a direct call: reported above
+										}
+										c.Violation("pair:case:predicate-gates-mapping:"+FuncName(fn), in.Pos(), "%s hands unicode.%s to a scanning function before lower-casing: runes that ToLower changes but the predicate does not cover (title-case digraphs, roman numerals, circled capitals) stay as they are in the index while the query side lower-cases them", FuncName(fn), f.Name())
+									}
+								}
+							}
+						}
+					}
 				}
 				// index side: every value token of the keyword and path tokenizers goes through the lower-casing helper
 				for _, name := range []string{"(*tokenizer.KeywordTokenizer).Tokenize", "(*tokenizer.PathTokenizer).Tokenize"} {
@@ -249,6 +270,61 @@ func c11() []*Ob {
 							c.Violation("dom:"+name+":lower-when-insensitive", l.Pos(), "%s lower-cases a token regardless of the case-sensitivity setting", name)
 						}
 					}
+				}
+			}},
+		{Prop: "C11", ID: "C11.7", Engine: "PROV(verbatim)", Floor: 1,
+			Desc: "a raw (back-quoted) query string is the bytes between the quotes: on the path of lexer.Next that marks the token as a raw string, the token text is a sub-slice of the input or of what strconv.QuotedPrefix cut off it — no unquoting function in between (strconv.Unquote follows Go's raw-string rule and deletes every carriage return, so a keyword value with a CR that was indexed verbatim can no longer be asked for)",
+			Check: func(c *Ctx) {
+				fn := c.Fn("(*parser.lexer).Next")
+				if fn == nil {
+					return
+				}
+				n := 0
+				for _, rs := range c.P.FindLifted(fn, func(in ssa.Instruction) bool {
+					st, ok := in.(*ssa.Store)
+					if !ok || !IsFieldAddr(st.Addr, "parser.lexer", "rawString") {
+						return false
+					}
+					v, isK := ConstBool(st.Val)
+					return isK && v
+				}) {
+					host := rs.In.Parent()
+					for _, ts := range InstrsIn(host, FieldStore("parser.lexer", "Token")) {
+						if !Dominates(ts, rs.In) && !Dominates(rs.In, ts) {
+							continue
+						}
+						v := ts.(*ssa.Store).Val
+						if _, isConst := v.(*ssa.Const); isConst {
+							continue // the reset of the token at the top of Next
+						}
+						n++
+						for {
+							sl, ok := v.(*ssa.Slice)
+							if !ok {
+								break
+							}
+							v = sl.X
+						}
+						ok := false
+						switch x := v.(type) {
+						case *ssa.Extract:
+							if cl, isCall := x.Tuple.(*ssa.Call); isCall && CallName(cl) == "strconv.QuotedPrefix" {
+								ok = true
+							}
+						case *ssa.UnOp:
+							ok = IsFieldAddr(x.X, "parser.lexer", "q")
+						case *ssa.Parameter:
+							ok = true
+						}
+						if ok {
+							c.Site(ts.Pos(), "the raw string token is a sub-slice of the input")
+						} else {
+							c.Violation("prov:lexer.Next:raw-verbatim", ts.Pos(), "the text of a back-quoted token is not a plain sub-slice of the input (it goes through %s): bytes of the value are changed on the way to the query term", Short(v.String()))
+						}
+					}
+				}
+				if n == 0 {
+					c.Undecided("prov:lexer.Next:raw-none", fn.Pos(), "lexer.Next no longer marks a token as a raw string next to storing its text")
 				}
 			}},
 		{Prop: "C11", ID: "C11.3", Engine: "SIBLING+PROV", Floor: 1,
